@@ -65,6 +65,9 @@ type Step struct {
 type Case struct {
 	Conns []CConn `json:"conns"`
 	Steps []Step  `json:"steps"` // afterwards: everything left is fed, then held handlers are released one by one
+	// WriteTimeoutMs > 0: the accepting Server is configured with that WriteTimeout (a deadline
+	// for writes to the peer; it must not change how handlers are sequenced, however long they run)
+	WriteTimeoutMs int `json:"write_timeout_ms,omitempty"`
 }
 
 func abstractMsg(conn, seq, fill int, ans bool) gen.Msg {
@@ -355,7 +358,7 @@ func runCase(c Case) *ev.Failure {
 	}()
 
 	lis := memnet.NewListener(n + 1)
-	srv := &diam.Server{Handler: mux, Dict: dict.Default}
+	srv := &diam.Server{Handler: mux, Dict: dict.Default, WriteTimeout: time.Duration(c.WriteTimeoutMs) * time.Millisecond}
 	served := make(chan error, 1)
 	go func() { served <- srv.Serve(lis) }()
 	conns := make([]*memnet.Conn, n)
@@ -497,6 +500,9 @@ func describe(c *Case, ci int) string {
 
 func genCase(t *rapid.T) Case {
 	var c Case
+	if rapid.IntRange(0, 3).Draw(t, "write-timeout") == 0 {
+		c.WriteTimeoutMs = rapid.IntRange(1, 20).Draw(t, "write-timeout-ms")
+	}
 	nc := rapid.IntRange(1, 4).Draw(t, "conns")
 	for i := 0; i < nc; i++ {
 		cc := CConn{Dial: rapid.Bool().Draw(t, "dial")}
